@@ -1,10 +1,28 @@
 #!/bin/sh
 # usage: seedrun.sh <Cxx> <check-id>...  — applies /verif/seeded/<Cxx>/patch.diff to /repo, runs the named checks, undoes it.
 # The evidence files of the checks are saved before and restored afterwards (they must describe the unchanged tree).
+# A patch that no longer applies plainly (later hook or fix commits touched neighbouring lines) is applied to the files it
+# touches as they were at the most recent commit where it does apply plainly (the other files stay at HEAD); only if there is no
+# such commit among the last 15 that touched those files is a 3-way merge tried, and a merge with conflict markers is refused.
 id=$1; shift
+P=/verif/seeded/$id/patch.diff
 cd /repo && git status --short | grep -v '^??' && { echo "/repo dirty"; exit 1; }
-git -C /repo apply --3way /verif/seeded/$id/patch.diff 2>&1 | tail -2 || { echo "patch does not apply"; exit 1; }
-git -C /repo reset -q
+if git apply --check $P 2>/dev/null; then
+  git apply $P
+else
+  files=$(grep '^+++ b/' $P | sed 's#^+++ b/##')
+  ok=0
+  for c in $(git log --format=%h -n 15 -- $files); do
+    for f in $files; do git show $c:$f > $f 2>/dev/null; done
+    if git apply --check $P 2>/dev/null; then git apply $P; echo "patch applied to its files as of commit $c"; ok=1; break; fi
+  done
+  if [ $ok = 0 ]; then
+    git checkout -- .
+    git apply --3way $P 2>&1 | tail -2
+    git reset -q
+    if grep -rl '^<<<<<<<' src slotted-egraphs-derive >/dev/null 2>&1; then echo "patch does not apply (conflicts)"; git checkout -- .; exit 1; fi
+  fi
+fi
 mkdir -p /verif/.work/evsave
 for c in "$@"; do cp /verif/evidence/$c.json /verif/.work/evsave/$c.json 2>/dev/null; done
 for c in "$@"; do (cd /verif && ./check $c | tail -3); done
